@@ -238,8 +238,15 @@ def windows(ctx, R="R-C20-windows"):
     for cname, (gen, a0) in spec.WINDOWS.items():
         c = fm.classes.get(cname)
         ctx.need(c is not None, R, "filters.%s vanished" % cname)
-        f = prog.own_method(c, "get_impulse_response")
-        ev = SymEval(prog, f).run()
+        f = prog.find_method(c, "get_impulse_response")
+        ctx.need(f is not None and not f.is_abstract, R, "%s has no concrete get_impulse_response" % cname)
+        # sharing first: a window object handed out twice is a definite defect whatever formula produced it
+        fresh_and_pure(ctx, R, f, "%s.get_impulse_response" % cname)
+        if ctx.findings and any(fd.rule == R and cname in fd.message for fd in ctx.findings):
+            n += 1
+            continue
+        helpers = [t.qualname for t in (prog.resolve(f.module, c_.func, f) for c_ in astq.func_calls(f)) if hasattr(t, "qualname") and getattr(t, "cls", 1) is None]
+        ev = SymEval(prog, f, self_class=c, inline=helpers).run()
         ctx.need(len(ev.returns) == 1, R, "%s.get_impulse_response has several returns" % cname)
         v = ev.returns[0][1]
         w = S.sym(f.params[1])
@@ -251,7 +258,6 @@ def windows(ctx, R="R-C20-windows"):
                   "%s is %s(width) / (%s * max(1, width - 1))" % (cname, short, a0),
                   "%s returns %s; the documented window is %s(width) divided by its continuous-limit area %s*max(1, width-1)"
                   % (cname, S.show(v), short, a0))
-        fresh_and_pure(ctx, R, f, "%s.get_impulse_response" % cname)
     ctx.floor(R, n, 4)
 
 
